@@ -509,6 +509,9 @@ func main() {
 					confirmed = status == "crash" || status == "panic" || (status == "fail" && containsStr(nr[0].Failures, "alloc-bound"))
 				case "blocked":
 					confirmed = status == "crash"
+				case "steps":
+					// the native watchdog aborts a bounded region that is still running after 10 s
+					confirmed = status == "crash"
 				}
 				if !confirmed && (status == "fail" || status == "panic" || status == "crash") {
 					// fails natively, though with another label: still a real failure
